@@ -220,4 +220,26 @@ Definition valid_segment (s : segment) : bool :=
 Definition valid_input (ups cores downs : list segment) : bool :=
   forallb valid_segment ups && forallb valid_segment cores && forallb valid_segment downs.
 
+(** ---- the interfaces a rendered path segment traverses (data-plane view) ----
+    A hop field of AS [ia] in a segment with construction-direction flag [cd] is
+    entered through [enter] and left through [leave].  Inside a segment both are
+    crossed.  The first hop of a segment is entered, and the last one left, over
+    an inter-AS link only if that end is a peering hop (flag [peer]; the peering
+    hop is the first hop of a segment in construction direction and the last hop
+    of one against it); otherwise the path starts / ends / changes segment inside
+    that AS. *)
+Definition enter (cd : bool) (h : hopf) : N := if cd then h_in h else h_eg h.
+Definition leave (cd : bool) (h : hopf) : N := if cd then h_eg h else h_in h.
+Definition hop_ifs (cd keep_enter keep_leave : bool) (x : N * hopf) : list iface :=
+  (if keep_enter then nz (fst x) (enter cd (snd x)) else []) ++
+  (if keep_leave then nz (fst x) (leave cd (snd x)) else []).
+Definition traversed (cd peer : bool) (hops : list (N * hopf)) : list iface :=
+  match hops with
+  | [] => []
+  | [x] => hop_ifs cd (peer && cd) (peer && negb cd) x
+  | x :: t => hop_ifs cd (peer && cd) true x ++
+              flat_map (hop_ifs cd true true) (removelast t) ++
+              hop_ifs cd true (peer && negb cd) (last t x)
+  end.
+
 End CombSpec.
